@@ -217,6 +217,11 @@ func (packet *Packet) SetParameters(values []base.BoundValue) (err error) {
 		// and we need to get result tokenization value to set signed/unsigned byte
 		switch base_mysql.Type(boundType) {
 		case base_mysql.TypeLong, base_mysql.TypeLongLong:
+			// a NULL parameter (NULL-bitmap) has no value to take the sign from: ParseInt("") failed and with it
+			// the whole COM_STMT_EXECUTE
+			if nullBitmap[i/8]&(1<<(uint(i)%8)) > 0 {
+				break
+			}
 			data, err := values[i].GetData(nil)
 			if err != nil {
 				return err
